@@ -37,7 +37,7 @@ LEVEL_NOTE = ("Trusted: Lean kernel; Spec/Tree + Spec/Expand (meaning of loops/b
               "(for a negative threshold the pass loop does not end: a pass with score 0 changes nothing), int16_t call params (the model keeps params as unbounded Int: "
               "Ex2.analyzeStack_fuel_artefact), initialSubId + events < 32767.  That an intermediate song exceeds the depth limit (D18) is decided per case by the oracle.")
 RULE = ("motif-repetition songs (A^k, A^k A[0..j), motifs with nested loops, breaks (also two breaks in one loop) and calls, loop point at any depth-0 position, 1..4 channel tracks sharing "
-        "motifs, tracks > 15, existing tracks >= 15000 (called or not)) "
+        "motifs, tracks > 15, existing tracks >= 15000 (called or not)) + straddle family (a phrase and its repetition on the two sides of a break, loop bracket, loop point or call) "
         "x min_score in 0..10 + all tracks over a 4-symbol alphabet up to length 6 (8 thorough); non-trivial = optimiser changed the song; distinct by request")
 EXPLANATION = "spec expander on the real optimiser's output vs on its input"
 ASSUMPTIONS = ["input songs validate (checked by the spec before judging)"]
@@ -107,6 +107,49 @@ def motif_song(rng, T):
     return song
 
 
+def straddle_cases(T, tier):
+    N = lambda k, d=12: (T["NOTE"], 36 + k, d, 0)
+    LS, LB, SG = (T["LOOP_START"], 0, 0, 0), (T["LOOP_BREAK"], 0, 0, 0), (T["SEGNO"], 0, 0, 0)
+    LE = lambda c: (T["LOOP_END"], c, 0, 0)
+    J = (T["JUMP"], 100, 0, 0)
+    sub = {100: [N(9), N(10)]}
+    lens = [3, 4] if tier == "quick" else [2, 3, 4, 5, 7]
+    for ln in lens:
+        A = [N(k) for k in range(ln)]
+        x, y = [N(7)], [N(8)]
+        for cnt in (2, 3):
+            shapes = {
+                # the phrase before a break repeated right after it, inside the same loop
+                "brk-A/A": [LS] + A + [LB] + A + [LE(cnt)],
+                "brk-A/Ax": [LS] + A + [LB] + A + x + [LE(cnt)],
+                "brk-xA/A": [LS] + x + A + [LB] + A + [LE(cnt)],
+                "brk-AA/A": [LS] + A + A + [LB] + A + [LE(cnt)],
+                "brk-A/AA": [LS] + A + [LB] + A + A + [LE(cnt)],
+                "brk-A/A-then-A": [LS] + A + [LB] + A + [LE(cnt)] + A,
+                # two breaks
+                "brk2-A/A/A": [LS] + A + [LB] + A + [LB] + A + [LE(cnt)],
+                # across loop brackets
+                "ls-A[A": A + [LS] + A + x + [LE(cnt)],
+                "ls-A[Ax]A": A + [LS] + A + [LE(cnt)] + A,
+                "le-[xA]A": [LS] + x + A + [LE(cnt)] + A,
+                "le-[A]A": [LS] + A + [LE(cnt)] + A + A,
+                "nest-[A[A]A]": [LS] + A + [LS] + A + [LE(2)] + A + [LE(cnt)],
+                "nest-brk-[A/[A/A]A]": [LS] + A + [LB] + [LS] + A + [LB] + A + [LE(2)] + A + [LE(cnt)],
+                # across the loop point and across a call
+                "segno-A|A": A + [SG] + A,
+                "segno-AA|AA": A + A + [SG] + A + A,
+                "segno-xA|Ay": x + A + [SG] + A + y,
+                "call-A*A": A + [J] + A,
+                "call-A*A*A": A + [J] + A + [J] + A,
+            }
+            for name, evs in shapes.items():
+                song = {0: evs}
+                if J in evs:
+                    song.update(sub)
+                for score in (0, 1, 10):
+                    yield Case("opt %d %s" % (score, songgen.render(song)), ("straddle", name.split("-")[0]), "straddle")
+
+
 def has_break2(flat, T):
     """two LOOP_BREAKs directly in one loop body (the `[a / b / c]2` shape)"""
     stack = []
@@ -134,6 +177,11 @@ def cases(rng, tier):
                 continue   # symmetry: first symbol fixed
             evs = [alpha[i] for i in seq]
             yield Case("opt 0 " + songgen.render({0: evs}), ("exhaustive",), "exhaustive")
+    # repeats that straddle a structural marker: a phrase and its repetition on the two sides of a
+    # break, a loop bracket, the loop point or a call, in every loop context that keeps the song
+    # valid.  The optimiser must not fold or extract across the marker.
+    for c in straddle_cases(T, tier):
+        yield c
     n = 500 if tier == "quick" else 8000
     scores = list(range(11))
     made = 0
